@@ -75,7 +75,10 @@ func (p *NumInfo) decimal(v *apd.Decimal) error {
 		v.Coeff.SetString(string(b), int(p.base))
 		return nil
 	}
-	_ = v.UnmarshalText(p.buf)
+	if err := v.UnmarshalText(p.buf); err != nil {
+		// For instance an exponent outside the range apd supports.
+		return p.errorf("invalid number: %v", err)
+	}
 	if p.mul != 0 {
 		_, _ = baseContext.Mul(v, v, mulToRat[p.mul])
 		cond, _ := baseContext.RoundToIntegralExact(v, v)
